@@ -571,7 +571,8 @@ def run_driver(case):
 
             hm.check_move = check
             ke_box["veto"] = veto
-            moves = [(hm, spy(K.HamiltonianCanonicalCriteria))] * 2
+            # second entry: an ordinary single-particle move inside the Hamiltonian driver (canonical rule)
+            moves = [(hm, spy(K.HamiltonianCanonicalCriteria)), (DisplacementMove(np.arange(n), Ball(0.3)), spy(K.CanonicalCriteria))]
         elif driver == "Isobaric":
             mc = isobaric.Isobaric(atoms, temperature=model["temperature"], pressure=model["pressure"], **kw)
             moves = [(CellMove(AnisotropicDeformation(0.03)), spy(K.IsobaricCriteria)), (DisplacementMove(np.arange(n), Ball(0.3)), spy(K.CanonicalCriteria))]
@@ -585,8 +586,15 @@ def run_driver(case):
                                      number_of_exchange_particles=n, **kw)
             mc.accessible_volume = model["accessible_volume"]
             moves = [(ExchangeMove(np.arange(n)), spy(K.GrandCanonicalCriteria)), (DisplacementMove(np.arange(n), Ball(0.3)), spy(K.CanonicalCriteria))]
+        use_default = case["seed"] % 2 == 0
         for i, (mv, cr) in enumerate(moves):
-            mc.add_move(mv, criteria=cr, name=f"m{i}")
+            if use_default and f"m{i}" not in mc.moves:
+                # the criteria the driver itself assigns to this kind of move (what most users run), observed by
+                # replacing the stored object with a recording subclass instance of the very same class
+                mc.add_move(mv, name=f"m{i}")
+                mc.moves[f"m{i}"].criteria = spy(type(mc.moves[f"m{i}"].criteria))
+            else:
+                mc.add_move(mv, criteria=cr, name=f"m{i}")
 
     labels = ["driver:" + driver]
     keys = []
@@ -640,20 +648,25 @@ def run_driver(case):
         e_new, _ = model_energy_forces("pair", rec["pos"], rec["cell"], rec["numbers"], PAIR)
         dE = e_new - e_old
         crit_name = type(mc.moves[f"m{which}"].criteria).__name__
-        if "Hamiltonian" in crit_name:
+        mv_obj = mc.moves[f"m{which}"].move
+        rule = ("hamiltonian" if isinstance(mv_obj, HamiltonianDisplacementMove) else "isotension" if isinstance(mv_obj, CellMove) and driver == "Isotension"
+                else "isobaric" if isinstance(mv_obj, CellMove) else "gc" if isinstance(mv_obj, ExchangeMove) else "canonical")
+        if use_default:
+            labels.append("default-criteria")
+        if rule == "hamiltonian":
             # total-energy change of the trajectory that produced the trial: its start is the last integrate() call
             logA = -((e_new + rec["ke"]) - e_old - ke_box["ke_start"]) / kT
-        elif "Isobaric" in crit_name or "Isotension" in crit_name:
+        elif rule in ("isobaric", "isotension"):
             V0, V = abs(np.linalg.det(before[1])), abs(np.linalg.det(rec["cell"]))
             logA = -(dE + model["pressure"] * (V - V0)) / kT + (len(rec["numbers"]) + 1) * math.log(V / V0)
-            if "Isotension" in crit_name:
+            if rule == "isotension":
                 # external stress is kept hydrostatic in this part => work term must vanish when S == P*1;
                 # otherwise only the verdict for S == P*1 is asserted
                 S = np.asarray(model["external_stress"], dtype=float)
                 if not np.allclose(S, model["pressure"] * np.eye(3), rtol=0, atol=0):
                     labels.append("tension-nonhydro-skipped")
                     continue
-        elif "GrandCanonical" in crit_name:
+        elif rule == "gc":
             N = model["number_of_exchange_particles"]
             l3 = log_lambda3(float(np.sum(case["species_masses"])), model["temperature"])
             Vacc = model["accessible_volume"]
@@ -672,7 +685,7 @@ def run_driver(case):
         logu = math.log(u) if u > 0 else -math.inf
         hist = mc.move_history[-1][1]
         # keep the harness' particle-count model in step with accepted exchanges
-        if "GrandCanonical" in crit_name and hist:
+        if rule == "gc" and hist:
             model["number_of_exchange_particles"] += rec["delta"]
         band = 2e-6 + 1e-10 * max(1.0, abs(logA), abs(dE) / kT)
         if rec.get("measured_ok"):
